@@ -36,9 +36,10 @@ prop('C01', contracts=['c01_release'],
      explanation='PROVED for every queue/tree/state: next_job_batch releases (n,t) only if no queued ancestor of n has t or __all__ pending or executing and never releases __all__ while an ancestor is queued (post.safety), it only moves targets todo->do/doing (post.conserve.*), pending-or-executing of every node is unchanged by the batch, result = nodes with a release; find returns the queued node with that tag. BOUNDED ONLY: that `ancestry` is the transitive closure (C09), that every writer keeps pending work in the queue (J1), and the interleavings of events on the simulated farm.',
      trusted_base=[ELEMENT, 'dawgie.util.fifo.Unique viewed as a set (order abstracted)', 'promotion.Engine.__call__ returns falsy (A2)'],
      assumptions=[A1, A2, A4, A5])
-prop('C02', contracts=[],
-     technique='not decided deductively yet: bounded scheduler/farm simulation on the real code (labelled bounded)',
-     explanation='BOUNDED ONLY: schedule.update/organize and the closure at quiescence are explored by the simulation (all event sequences up to the stated depth on the stated graphs); no obligation is discharged for this property',
+prop('C02', contracts=['c02_update'],
+     technique=TECH + 'schedule.update under contract with three loop invariants and choice-function witnesses (which tasks are organised, for which targets, under which run id); organize and the closure at quiescence by the bounded simulation',
+     explanation='PROVED for every report, tree and feedback table: schedule.update makes exactly one organize call per non-empty report and none for an empty one; the tasks it organises are exactly the children of the reporting node that declare a NEWLY authored value among their inputs plus the feedback consumers of newly authored values (complete and minimal: a value reported as not new contributes nothing); the targets are exactly the targets of the newly authored values; the run id is kept unless a fed-back value was authored. BOUNDED ONLY: what organize does with that call (todo of every located node grows by those targets), transitive closure at quiescence, promote.',
+     trusted_base=[ELEMENT, 'vn.split/join projections of a value name as uninterpreted functions (target, full value name, task.alg prefix)', 'util.as_vref/_priors as the declared-input set of an algorithm'],
      assumptions=[A1, A2, A3, A4, A5])
 prop('C03', contracts=['c01_release', 'c03_farm', 'c04_complete'],
      technique=TECH + 'once-only release (next_job_batch), message fan-out (_put), placement (Hand.do) and farm.dispatch with loop invariants; reply ledger by the bounded simulation',
